@@ -1,5 +1,6 @@
 (* Extraction for the C12 correspondence driver (ExtrOcamlBasic only, no Extract Constant). *)
 From Coq Require Import Extraction ExtrOcamlBasic NArith ZArith List.
-From AHK Require Import Model.Subs.
+From AHK Require Import Model.Subs Model.SubsConc.
 Separate Extraction Z.of_N Z.to_N N.of_nat N.to_nat
-  init step trace_from format put_ids calls_of.
+  init step trace_from format put_ids calls_of
+  cinit cstep canswer runs order_by.
